@@ -235,17 +235,17 @@ PROPS = {
         level_note="equality is judged on the observer's rendering (all getters, predicates, offsets, return values, serialisations)",
     ),
     "C13": dict(
-        legs=[dict(monitor="c13", config="tsan", name="c13:m1-first-use/tsan", args=["--mode", "m1"], workers=3, cases=K(450, 9000)),
+        legs=[dict(monitor="c13", config="tsan", name="c13:m1-first-use/tsan", args=["--mode", "m1"], workers=3, cases=K(450, 4500)),
               # few worker processes on purpose: every trial has spinning waiters, oversubscribing the cores only slows the winner down
-              dict(monitor="c13", config="tsan", name="c13:m2-schedules/tsan", args=["--mode", "m2"], workers=5, cases=K(1000, 30000)),
-              dict(monitor="c13", config="asan", name="c13:m2-schedules/asan", args=["--mode", "m2"], workers=5, cases=K(300, 10000)),
+              dict(monitor="c13", config="tsan", name="c13:m2-schedules/tsan", args=["--mode", "m2"], workers=5, cases=K(1000, 12000)),
+              dict(monitor="c13", config="asan", name="c13:m2-schedules/asan", args=["--mode", "m2"], workers=5, cases=K(300, 4000)),
               dict(monitor="c13", config="asan", name="c13:m3a-limit-splits/asan", args=["--mode", "m3a"], cases=K(320000, 16000000)),
               dict(monitor="c13", config="tsan", name="c13:m3b-limit-toggle/tsan", args=["--mode", "m3b"], workers=4, cases=K(400000, 8000000)),
               dict(monitor="c13", config="tsan", name="c13:m4-stress/tsan", args=["--mode", "m4"], workers=2, cases=K(400000, 8000000))],
         rule="m1: 2-16 threads released by a relaxed-atomic gate each make the first table-needing call of one of 10 kinds (to_ascii, to_unicode, normalize, IDN parse of both URL "
              "types, valid_name_code_point, map, is_label_valid, url_pattern with a Unicode group name) with random pause-loop pre-delays, in fresh child processes (true first use) "
              "and in-process after the H4 reset hook; m2: the H3 schedule points of ensure_tables() are driven by a relaxed-atomics-only scheduler: every binary schedule of depth "
-             "11 (thorough 15) for two threads and random schedules for 3-4 threads, under TSan and under ASan; m3a: for every operation (parse +-base, can_parse, all setters, "
+             "11 (thorough 14) for two threads and random schedules for 3-4 threads, under TSan and under ASan; m3a: for every operation (parse +-base, can_parse, all setters, "
              "set_href) and limit pair around the sizes in play, one limit change is placed between the k-th and (k+1)-th limit read of that single operation for every k (H6 "
              "callback) and the outcome must equal the outcome under one of the two limits; m3b: a writer thread cycles three limits while 4 workers run pooled operations, each "
              "outcome must be in the precomputed per-limit outcome set; m4: 8 threads run all API families on thread-local objects with a shared const base URL and are compared "
@@ -255,7 +255,7 @@ PROPS = {
                            "m2_schedules_run": 3000, "m2_distinct_interleavings_observed": 100, "m2_point_entry": 1, "m2_point_after_first_load": 1, "m2_point_cas_won": 1, "m2_point_after_inflate": 1,
                            "m2_point_before_ready_store": 1, "m2_point_after_ready_store": 1, "m2_point_cas_lost": 1, "m2_point_spin": 1,
                            "m3a_operations_with_2plus_reads": 1000, "m3a_split_executions": 5000, "m3a_operations_limit_dependent": 1000, "m3b_operations_checked": 5000, "m4_operations_compared": 20000},
-                    thorough={"m1_inprocess_trials": 8000, "m2_schedules_run": 60000, "m3a_split_executions": 500000, "m3b_operations_checked": 200000, "m4_operations_compared": 1000000,
+                    thorough={"m1_inprocess_trials": 4000, "m2_schedules_run": 40000, "m3a_split_executions": 500000, "m3b_operations_checked": 200000, "m4_operations_compared": 1000000,
                               "trials_with_spinning_waiter": 10, "m2_point_spin": 1, "m2_point_cas_lost": 1}),
         assumptions=["interleavings are enumerated at H3 hook-point granularity, not instruction granularity; weak-memory reorderings are decided by TSan's happens-before model, not observed on x86",
                      "the scheduler and gates use only relaxed atomics and pause loops so that they donate no happens-before edge to the code under test",
